@@ -344,7 +344,7 @@ pub fn run(ctx: &Ctx) -> (Stats, Report) {
     st.exhaustive_sections.push("all dates x 12 units on Date; all dates x 15 critical times x 12 units on Timestamp and OracleDate".into());
     st.section("all_dates_x_units", &mut mark);
 
-    let days = sampled_days(seed, if ctx.thorough { 64 } else { 12 });
+    let days = sampled_days(seed, if ctx.thorough { 300 } else { 12 });
     for u in UNITS {
         let b = bounds(u);
         let bref = &b;
